@@ -235,7 +235,11 @@ class CsOracle:
         self.malformed: List[str] = []
         for fname, text in sorted(files.items()):
             if custom_files and fname in custom_files:
-                continue
+                # hand-written support classes are not read - unless the metamodel itself declares a type of that name
+                # (ResponseError is a structure of the base protocol): then the file has to be the generated one
+                stem = fname[:-3] if fname.endswith(".cs") else fname
+                if stem not in self.m.structs and stem not in self.m.enums:
+                    continue
             try:
                 for c in parse_file(fname, text, self.strict_names(), self.malformed):
                     if c.name in self.classes:
